@@ -181,6 +181,16 @@ namespace adept {
     Array(Type* data, Storage<Type>* s, const ExpressionSize<Rank>& dims,
 	  const ExpressionSize<Rank>& offset)
       : data_(data), storage_(s), dimensions_(dims), offset_(offset) { 
+      // Member functions that return a view of part of an array
+      // (indexing with a reversed range, diag_vector beyond the last
+      // diagonal, reshape with negative arguments) must not produce
+      // an array with a negative dimension
+      for (int i = 0; i < Rank; ++i) {
+	if (dimensions_[i] < 0) {
+	  throw invalid_dimension("Negative array dimension requested"
+				  ADEPT_EXCEPTION_LOCATION);
+	}
+      }
       if (storage_) {
 	storage_->add_link(); 
 	internal::GradientIndex<IsActive>::set(data_, storage_);
@@ -198,7 +208,14 @@ namespace adept {
     Array(const Type* data0, Index data_offset, const ExpressionSize<Rank>& dims,
 	  const ExpressionSize<Rank>& offset, Index gradient_index0)
       : internal::GradientIndex<IsActive>(gradient_index0, data_offset),
-	data_(const_cast<Type*>(data0)+data_offset), storage_(0), dimensions_(dims), offset_(offset) { }
+	data_(const_cast<Type*>(data0)+data_offset), storage_(0), dimensions_(dims), offset_(offset) {
+      for (int i = 0; i < Rank; ++i) {
+	if (dimensions_[i] < 0) {
+	  throw invalid_dimension("Negative array dimension requested"
+				  ADEPT_EXCEPTION_LOCATION);
+	}
+      }
+    }
 
     // Initialize an array pointing at existing data: the fact that
     // storage_ is a null pointer is used to convey the information
@@ -207,6 +224,12 @@ namespace adept {
     Array(Type* data, const ExpressionSize<Rank>& dims)
       : data_(data), storage_(0), dimensions_(dims) {
       ADEPT_STATIC_ASSERT(!IsActive, CANNOT_CONSTRUCT_ACTIVE_ARRAY_WITHOUT_GRADIENT_INDEX);
+      for (int i = 0; i < Rank; ++i) {
+	if (dimensions_[i] < 0) {
+	  throw invalid_dimension("Negative array dimension requested"
+				  ADEPT_EXCEPTION_LOCATION);
+	}
+      }
       // Active arrays need a gradient index so it is an error for
       // them to get to this point
       internal::GradientIndex<IsActive>::assert_inactive();
